@@ -203,10 +203,13 @@ def cases(draw):
         pass
     flip = draw(st.booleans())
     bracket = [hi, lo] if flip else [lo, hi]
-    gk = draw(st.sampled_from(['inside', 'lo', 'hi', 'below', 'above', 'root']))
+    gk = draw(st.sampled_from(['inside', 'lo', 'hi', 'below', 'above', 'root', 'other-root', 'far-below']))
     w = hi - lo
+    # 'other-root': a root of f OUTSIDE the bracket (several-root families) - the start residual is zero there, yet the
+    # result has to lie inside the bracket; 'far-below': well outside the bracket (for x^m - c outside the domain of f)
+    others = [r for r in roots_of(fam, [float(t) for t in th]) if not (lo <= r <= hi)]
     x0 = {'inside': lo + draw(gen.floats(0, 1)) * w, 'lo': lo, 'hi': hi, 'below': lo - w, 'above': hi + 10 * w,
-          'root': root}[gk]
+          'root': root, 'other-root': others[0] if others else lo - 0.5 * w, 'far-below': lo - 100 * w - 1.0}[gk]
     big = max(abs(lo), abs(hi), 1e-300)
     ulp = big * EPS
     x_tol = draw(gen.logfloat(-14, -2)) * max(w, ulp)
